@@ -33,7 +33,10 @@ SeqsUpTo(n) == UNION {[1..k -> Sp] : k \in 0..n}
 KG == {I(2), R(1, 2), I(1), I(3)}
 TauGrid == {R(j, 64) : j \in 1..96}
 Grids == { [i \in 1..NT |-> R(i - 1, 2)], [i \in 1..NT |-> R(i - 1, 4)], [i \in 1..NT |-> I(i - 1)],
-           [i \in 1..NT |-> R((i - 1) * i, 8)] }                       \* the last one is non-uniform: 0, 1/4, 3/4, 3/2, ...
+           [i \in 1..NT |-> R((i - 1) * i, 8)],                        \* non-uniform: 0, 1/4, 3/4, 3/2, ...
+           \* grids that START LATER than the initial time 0: the simulation still runs from 0, the first reported row is the
+           \* state reached by the events before the first requested time
+           [i \in 1..NT |-> R(2 * i + 1, 4)], [i \in 1..NT |-> R(2 * i - 1, 2)] }
 
 MassLaw(re, k) == [type |-> "massaction", re |-> SortNat(re), k |-> k, K |-> One, n |-> One, s1 |-> 1, d |-> 1]
 HillLawsG == {[type |-> ty, re |-> << >>, k |-> k, K |-> KK, n |-> nn, s1 |-> s, d |-> dd] :
